@@ -3,7 +3,7 @@ CONSTANTS
   DbGrow = 1
   DbGrowThresh = 2
   DbInos = {1, 2}
-  DbBlks = {<<0, 0>>, <<0, 5>>, <<1, 0>>}
+  DbBlks = {0, 5, 8}
   DbCnts = {0, 1}
   DbInitSizes = {1, 2}
   DbMaxLen = 4
